@@ -214,7 +214,7 @@ CurveLists == << {}, {X25519}, {P256}, {P384, P256}, {X25519MLKEM768}, {X25519ML
 SigLists   == << {}, {EcdsaP256Sha256}, {EcdsaP384Sha384, EcdsaP256Sha256}, {RsaPkcs1Sha256}, {RsaPssSha256},
                  {Ed25519}, {EcdsaP384Sha384}, {RsaPkcs1Sha256, EcdsaP256Sha256, RsaPssSha256} >>
 SrtpLists  == << {}, {1}, {1, 2}, {7} >>
-AlpnLists  == << {}, {"a"}, {"a", "b"}, {"c"} >>
+AlpnLists  == << {}, {"h2"}, {"h2", "spdy/3"}, {"http/1.1"} >>   \* registered identifiers: libraries special-case some of them
 CCreds == << [psk |-> FALSE, cert |-> "none"], [psk |-> TRUE, cert |-> "none"], [psk |-> FALSE, cert |-> "ecdsa"] >>
 SCreds == << [psk |-> FALSE, cert |-> "ecdsa"], [psk |-> FALSE, cert |-> "rsa"], [psk |-> TRUE, cert |-> "none"],
              [psk |-> TRUE, cert |-> "ecdsa"], [psk |-> TRUE, cert |-> "rsa"], [psk |-> FALSE, cert |-> "ed25519"] >>
